@@ -350,9 +350,21 @@ func c18Do(c *ev.Ctx, w *c18world, cn *c18conn, st c18step, r *ev.Rand, prevLen 
 		if _, _, ok = w.rpc(c, cn, wire.Txattrcreate, u(63), name, u(uint64(len(data))), u(0)); !ok {
 			return false
 		}
-		half := len(data) / 2
-		w.rpc(c, cn, wire.Twrite, u(63), u(0), data[:half])
-		w.rpc(c, cn, wire.Twrite, u(63), u(uint64(half)), data[half:])
+		if r.Intn(2) == 0 {
+			half := len(data) / 2
+			w.rpc(c, cn, wire.Twrite, u(63), u(0), data[:half])
+			w.rpc(c, cn, wire.Twrite, u(63), u(uint64(half)), data[half:])
+		} else {
+			// the whole value in one Twrite; before the Tclunk commits it,
+			// other Twrites of exactly the same length go by on other
+			// connections (recycled message objects keep their payload buffer
+			// for a payload of the same size)
+			w.rpc(c, cn, wire.Twrite, u(63), u(0), data)
+			for j := 0; j < 5; j++ {
+				on := w.conns[(j+1)%len(w.conns)]
+				w.rpc(c, on, wire.Twrite, u(2), u(uint64(r.Intn(100))), r.Bytes(len(data)))
+			}
+		}
 		calls, _, ok := w.rpc(c, cn, wire.Tclunk, u(63))
 		if !ok {
 			return false
